@@ -69,6 +69,8 @@ struct Sys {
     rid: RepoId,
     vis: Vis,
     vis_at_init: Vis,
+    /// Has the repository been public at any point of this run (including the start)?
+    ever_public: bool,
     connected: BTreeSet<usize>,
     subscribed: BTreeSet<usize>,
     steps: u64,
@@ -121,12 +123,12 @@ fn start(db: Database, st: MockStorage, rid: RepoId, now: LocalTime) -> Svc {
 }
 
 impl Sys {
-    fn new() -> Sys {
+    fn new(initial: Vis) -> Sys {
         use radicle::node::{Alias, UserAgent};
         use std::str::FromStr;
         let peers = vec![Peer::new("dg", 31), Peer::new("al", 32), Peer::new("ev", 33)];
         let rid = svc::rid(0x41);
-        let vis = Vis::Public;
+        let vis = initial;
         let local = svc::local_signer();
         let cfg = service::Config::test(Alias::from_str("local").unwrap());
         let db = Database::memory()
@@ -134,7 +136,7 @@ impl Sys {
             .init(local.public_key(), cfg.features(), &cfg.alias, &UserAgent::default(), svc::t0().into(), cfg.external_addresses.iter())
             .unwrap();
         let s = start(db.clone(), storage(rid, &peers, vis), rid, svc::t0());
-        let mut sys = Sys { svc: s, db, peers, rid, vis, vis_at_init: vis, connected: BTreeSet::new(), subscribed: BTreeSet::new(), steps: 0, gossips: 0, restarts: 0 };
+        let mut sys = Sys { svc: s, db, peers, rid, vis, vis_at_init: vis, ever_public: vis == Vis::Public, connected: BTreeSet::new(), subscribed: BTreeSet::new(), steps: 0, gossips: 0, restarts: 0 };
         let ios = svc::drain(&mut sys.svc);
         let mut l = vec![];
         let mut v = vec![];
@@ -183,7 +185,7 @@ impl Sys {
                                     if self.vis != Vis::Public {
                                         // Was the repository already private when the node (re)started, or
                                         // did it become private while the node was running?
-                                        let origin = if self.vis_at_init == Vis::Public { "made-private-while-running" } else { "private-since-start" };
+                                        let origin = if self.ever_public { "made-private-while-running" } else { "never-public" };
                                         let _ = phase;
                                         vs.push(Violation::new(
                                             format!("C11/private-in-inventory/{origin}"),
@@ -222,6 +224,7 @@ impl Sys {
 
     fn set_vis(&mut self, v: Vis) {
         self.vis = v;
+        self.ever_public |= v == Vis::Public;
         let al = self.peers[AL].clone();
         let repo = self.svc.storage_mut().repo_mut(&self.rid);
         repo.doc.doc = repo.doc.doc.clone().with_edits(|raw| raw.visibility = visibility(v, &al)).expect("edit doc");
@@ -371,7 +374,7 @@ impl System for Sys {
             .collect();
         let _ = BTreeMap::<u8, u8>::new();
         json!({
-            "rows": rows, "vis": format!("{:?}", self.vis), "vis_at_init": format!("{:?}", self.vis_at_init),
+            "rows": rows, "vis": format!("{:?}", self.vis), "vis_at_init": format!("{:?}", self.vis_at_init), "ever_public": self.ever_public,
             "connected": self.connected, "subscribed": self.subscribed,
             "fetching": svc::fetching_key(&self.svc).len(),
         })
@@ -385,14 +388,30 @@ fn main() {
     svc::install_logger();
     let thorough = ctx.tier == mcx::Tier::Thorough;
     if let Some(w) = ctx.replay_witness() {
-        ctx.finish_replay(explore::replay::<Sys>("C11", Sys::new, &w));
+        let init = if w["detail"]["initial"].as_str() == Some("Private") { Vis::Private } else { Vis::Public };
+        ctx.finish_replay(explore::replay::<Sys>("C11", move || Sys::new(init), &w));
     }
     let (depth, devs) = if thorough { (7, 3) } else { (5, 2) };
-    let res = explore::explore("C11", Sys::new, Bounds::new(depth, devs).wall_secs(if thorough { 1500 } else { 50 }));
-    let cov = res.coverage(
+    // Two start states: the repository is public / private when the node starts.
+    let mut res = explore::explore("C11", || Sys::new(Vis::Public), Bounds::new(depth, devs).wall_secs(if thorough { 900 } else { 25 }));
+    for (_, (ws, _)) in res.violations.by_fp.iter_mut() {
+        for w in ws {
+            w.witness["detail"] = json!({"initial": "Public"});
+        }
+    }
+    let mut res2 = explore::explore("C11", || Sys::new(Vis::Private), Bounds::new(depth, devs).wall_secs(if thorough { 900 } else { 25 }));
+    for (_, (ws, _)) in res2.violations.by_fp.iter_mut() {
+        for w in ws {
+            w.witness["detail"] = json!({"initial": "Private"});
+        }
+    }
+    let second = res2.coverage("start state: repository private");
+    res.violations.merge(std::mem::take(&mut res2.violations));
+    let mut cov = res.coverage(
         "BFS over histories of {Connect(p), Subscribe(p), OwnRefs, RelayedRefs(via p), FetchedFrom(p), Gossip, Restart, SetVisibility(public|private|private+allow)} for peers \
          {delegate, allow-listed, stranger} on a real relaying Service over MockStorage; deviations = Restart, SetVisibility; every written message is checked against the visibility in force when it is written",
     );
+    cov.insert("second_start_state_private".into(), serde_json::Value::Object(second));
     ctx.finish(
         cov,
         &[
